@@ -339,6 +339,9 @@ func (e *Engine) trustedBase() []string {
 			out = append(out, "axiom "+f.Name+": "+f.Text)
 		}
 	}
+	if e.spec.WfNonNil {
+		out = append(out, "wf nonnil-elements: the pointer slices held in the parser's structures ([]*Option, []*Group, []*Command, []*Arg) contain no nil element (assumed at element reads)")
+	}
 	out = append(out,
 		"govc itself: Go-subset semantics, VC generation, cone-of-influence filter (drops hypotheses only)",
 		"SMT solvers: an unsat answer from any one of z3 5.1.0 / cvc5 1.0 / z3 4.8.12 is believed",
